@@ -228,6 +228,23 @@ impl Ctx {
     }
 }
 
+impl Ctx {
+    /// PacketParser over a stream: whatever packet X is (any tag, accepted or refused), the packet behind it is found
+    /// exactly behind X's announced length
+    fn stream_split(&mut self, tag: u8, x: &[u8], how: &str) {
+        use pgp::ser::Serialize;
+        let after = pgp::packet::UserId::from_str(pgp::types::PacketHeaderVersion::New, "after").ok().and_then(|u| pgp::packet::Packet::from(u).to_bytes().ok()).unwrap_or_default();
+        let stream = [x, &after[..]].concat();
+        let r = guarded(|| {
+            let items: Vec<_> = PacketParser::new(&stream[..]).take(10).collect();
+            let shown: Vec<String> = items.iter().enumerate().map(|(i, p)| match p { Ok(pgp::packet::Packet::UserId(u)) if i > 0 => format!("UserId({})", String::from_utf8_lossy(u.id())), Ok(_) => "Ok".into(), Err(_) => "Err".into() }).collect();
+            shown.join(",")
+        });
+        let (imp, pred) = match r { Ok(s) => { let ok = s == "Ok,UserId(after)" || s == "Err,UserId(after)"; (s, ok) } Err(p) => (p, false) };
+        self.out.case("", &[], &["stream_split".into(), tag.to_string(), how.into(), hx(&stream[..stream.len().min(700)])], &imp, Some(pred), &format!("stream-split-{}", if imp.starts_with("Err") { "refused" } else { "accepted" }));
+    }
+}
+
 /// length of the (new-format) header of a serialised packet
 fn p_hdr_len(b: &[u8]) -> usize {
     if b.len() < 2 { return b.len(); }
@@ -257,6 +274,25 @@ fn main() {
     }
     let thorough = cli.tier == "thorough";
     let data_tags = [8u8, 9, 11, 18, 20];
+
+    // 0. streams: a packet of every tag (its body: a serialised user id packet, or 300 octets), every fixed-length framing,
+    //    then one more packet: the parser finds it exactly behind the announced length, whether it accepted the first or not
+    {
+        use pgp::ser::Serialize;
+        let inside = pgp::packet::UserId::from_str(pgp::types::PacketHeaderVersion::New, "inside").ok().and_then(|u| pgp::packet::Packet::from(u).to_bytes().ok()).unwrap_or_default();
+        let big = body_for(&mut cx.rng, 300);
+        for tag in 0u8..64 {
+            for (bn, body) in [("uid", &inside), ("300", &big)] {
+                for cls in [1u8, 2, 5] {
+                    if (cls == 1 && body.len() >= 192) || (cls == 2 && body.len() < 192) { continue; }
+                    if tag == 0 { continue; }
+                    let x = frame_new(tag, &[], cls, body);
+                    cx.stream_split(tag, &x, &format!("new{cls}-{bn}"));
+                }
+                if tag > 0 && tag < 16 { for lt in [0u8, 1, 2] { if lt == 0 && body.len() > 255 { continue; } let x = frame_old(tag, lt, body); cx.stream_split(tag, &x, &format!("old{lt}-{bn}")); } }
+            }
+        }
+    }
 
     // 1. every tag x both formats x every length class, small bodies at class edges
     for tag in 0u8..64 {
